@@ -8,7 +8,11 @@ CHECK = {'level': 'model_checking',
          'material is held, wrong/partial/previous keys leave it sealed, every entry reads back, new writes carry the '
          'newest term, the standby equals the active after the upgrade path. C: crash after every physical write of '
          'Rotate/RotateRootKey (barrier) and of rekey / root rotation / key rotation (Core), restart, unseal with old '
-         'or new key material, read everything back',
+         'or new key material, read everything back. HA: every history (depth 3/4) over write / rotate / rotate-root / '
+         'rekey (rotation API and deprecated API) / fail-over / restart on two real Cores sharing one store and one HA '
+         'lock; after every step the active node reads everything back and writes under the newest term, the node that '
+         'took over holds the keyring the active node had, a sealed node serves nothing, and a copy of the store '
+         'unseals on a new node with the currently valid shares',
  'assumptions': ['Seal()/RotateRootKey on an already sealed barrier are not driven (Core never calls them sealed)',
                  'Core crash runs obtain the would-be new shares from a fault-free pass (deterministic crypto/rand '
                  'seam)'],
@@ -32,6 +36,12 @@ CHECK = {'level': 'model_checking',
            {'name': 'corehist',
             'pkg': './internal/verifh/core',
             'run': '^TestVerifC10CoreHist$',
+            'rewrite': {'sync': ['internal', 'sdk']},
+            'shards': {'quick': 16, 'thorough': 16},
+            'timeout': {'quick': 900, 'thorough': 3000}},
+           {'name': 'ha',
+            'pkg': './internal/verifh/core',
+            'run': '^TestVerifC10HA$',
             'rewrite': {'sync': ['internal', 'sdk']},
             'shards': {'quick': 16, 'thorough': 16},
             'timeout': {'quick': 900, 'thorough': 3000}}]}
